@@ -24,14 +24,47 @@ def extract_ohm():
     parts.append(S.cut_item('struct', 'HashMapEntry')['text'])
     for bl in S.find_impls('impl<T: Default + Clone> Default for HashMapEntry<T>'):
         parts.append(S.src[bl['start']:bl['end']])
+    # the wait queues on top of the table: WaitLists (without block/enqueue, which need managed handles and park the thread),
+    # append_to_waitlist, HeadAndTail; from threads.rs the thread pointer and the three link operations of DoraThread
+    parts.append(S.cut_item('struct', 'WaitLists')['text'])
+    wl = []
+    for bl in S.find_impls('impl WaitLists'):
+        d = S.depth[bl['open']] + 1
+        for nm in ('new', 'conditionally_enqueue', 'wakeup', 'wakeup_all', 'visit_roots'):
+            wl.append(S.cut_fn(nm, bl['open'] + 1, bl['end'] - 1, depth=d)['text'])
+    parts.append('impl WaitLists {\n' + '\n\n'.join(wl) + '\n}')
+    parts.append(S.cut_fn('append_to_waitlist', depth=0)['text'])
+    parts.append(S.cut_item('struct', 'HeadAndTail')['text'])
+    for bl in S.find_impls('impl Default for HeadAndTail'):
+        parts.append(S.src[bl['start']:bl['end']])
+    T = Source(os.path.join(root, 'dora-runtime/src/threads.rs'))
+    parts.append(T.cut_item('struct', 'DoraThreadPtr')['text'])
+    for bl in T.find_impls('impl DoraThreadPtr'):
+        parts.append(T.src[bl['start']:bl['end']])
+    parts.append(T.cut_item('struct', 'BlockingData')['text'])
+    for bl in T.find_impls('impl BlockingData'):
+        parts.append(T.src[bl['start']:bl['end']])
+    th = []
+    for bl in T.find_impls('impl DoraThread'):
+        d = T.depth[bl['open']] + 1
+        for nm in ('prepare_for_waitlist', 'set_waitlist_successor', 'remove_from_waitlist'):
+            try:
+                th.append(T.cut_fn(nm, bl['open'] + 1, bl['end'] - 1, depth=d)['text'])
+            except Exception:
+                pass
+    if len(th) != 3:
+        raise RuntimeError('DoraThread link operations not found (prepare_for_waitlist / set_waitlist_successor / remove_from_waitlist)')
+    # N8: DoraThread reduced to the one field these three methods touch
+    parts.append('pub struct DoraThread { blocking_data: BlockingData }\nimpl DoraThread {\n' + '\n\n'.join(th) + '\n}')
     drv = open(os.path.join(common.VERIF, 'runners', 'c09', 'driver.rs'), encoding='utf-8').read()
-    ohm = '#![allow(unused)]\nuse crate::env::*;\nuse std::mem::MaybeUninit;\n' + '\n\n'.join(parts) + '\n\n' + drv
+    drv += open(os.path.join(common.VERIF, 'runners', 'c09', 'driver_wait.rs'), encoding='utf-8').read()
+    ohm = '#![allow(unused)]\nuse crate::env::*;\nuse std::mem::MaybeUninit;\nuse parking_lot::{Condvar, Mutex};\n' + '\n\n'.join(parts) + '\n\n' + drv
     G = Source(os.path.join(root, 'dora-runtime/src/gc.rs'))
     a = [G.cut_item('struct', 'Address')['text']]
     meths = []
     for bl in G.find_impls('impl Address'):
         d = G.depth[bl['open']] + 1
-        for nm in ('from', 'to_usize', 'null', 'from_ptr'):
+        for nm in ('from', 'to_usize', 'null', 'from_ptr', 'is_null', 'to_ptr', 'is_non_null'):
             try:
                 meths.append(G.cut_fn(nm, bl['open'] + 1, bl['end'] - 1, depth=d)['text'])
             except Exception:
@@ -39,13 +72,15 @@ def extract_ohm():
     a.append('impl Address {\n' + '\n'.join(meths) + '\n}')
     for bl in G.find_impls('impl From<usize> for Address'):
         a.append(G.src[bl['start']:bl['end']])
+    # stand-in for gc.rs' Debug impl (needed by #[derive(Debug)] on DoraThreadPtr); formatting only
+    a.append('impl std::fmt::Debug for Address {\n    fn fmt(&self, f: &mut std::fmt::Formatter) -> std::fmt::Result { write!(f, "{:#x}", self.to_usize()) }\n}')
     addr = '#![allow(unused)]\n' + '\n\n'.join(a) + '\n'
     return ohm, addr
 
 
 def _runner_spec():
     ohm, addr = extract_ohm()
-    return dict(name='c09', deps={}, lock=False, extra_files={'ohm.rs': ohm, 'address.rs': addr},
+    return dict(name='c09', deps={}, lock=True, extra_deps=['parking_lot = "*"'], extra_files={'ohm.rs': ohm, 'address.rs': addr},
                 budget_quick_ms=4000, budget_thorough_ms=90000)
 
 
@@ -74,7 +109,10 @@ def run(tier):
         'visit_roots (raw pointers + FnMut) is not under contract; the replay runner drives it to emulate a moving collection',
         'clause (a): that a LOCK-prefixed CMPXCHG/XADD and an XCHG with a memory operand are indivisible is the processor\'s guarantee; the rows decide which instruction is selected '
         '(contracts/c09a_rows.rs, child module of masm in a scratch copy of dora-cannon-compiler; MacroAssembler is built field by field because ::new() executes cpuid)',
-        'mutual exclusion, lost wake-ups, joins and thread queues (DoraThreadPtr lists) are NOT decided here: interleavings are outside this technique',
+        'the wait queues built on the table (WaitLists::{conditionally_enqueue, wakeup, wakeup_all, visit_roots}, append_to_waitlist, DoraThread::{prepare_for_waitlist, set_waitlist_successor, remove_from_waitlist}) '
+        'are NOT under contract (raw thread pointers, parking_lot): they are cut verbatim and EXECUTED sequentially by the replay runner against a FIFO model '
+        '(a thread is blocked exactly while queued; wakeup releases the longest waiter; wakeup_all releases all; a false condition enqueues nobody; moving collections keep the queues): sampled',
+        'mutual exclusion, lost wake-ups under real interleavings and joins are NOT decided here: interleavings are outside this technique',
     ]
     samples = [
         dict(invariant='wf', statement='capacity = |data| is 0 or a power of two >= 8; entries / deleted count the live / tombstone slots; entries + deleted <= 3/4 capacity '
@@ -101,7 +139,7 @@ def replay(rp):
         print(rp.get('verus_output', ''))
         return 1
     spec = _runner_spec()
-    runner = common.build_runner(spec['name'], spec['deps'], lock=False, extra_files=spec['extra_files'])
-    rc, out, err, _ = common.run_cmd([runner, 'replay', str(fi['seed']), str(fi['iter'])])
+    runner = common.build_runner(spec['name'], spec['deps'], lock=True, extra_files=spec['extra_files'], extra_deps=spec.get('extra_deps'))
+    rc, out, err, _ = common.run_cmd([runner, 'replay-wait' if fi.get('kind') == 'wait' else 'replay', str(fi['seed']), str(fi['iter'])])
     print(out.strip())
     return 1 if rc != 0 else 0
